@@ -133,6 +133,11 @@ impl Part for C01 {
             k.sk_s = k.sk_r.clone();
             k.pk_s = k.pk_r.clone();
         }
+        // X25519: both sides may hold the sender's public key in a NON-canonical encoding (bit 255 set - RFC 7748 says it is
+        // ignored; from_bytes accepts it and to_bytes returns it verbatim): same point, and the round trip still works
+        if c.suite.kem == crate::refmodel::Kem::X25519 && c.mode.has_auth() && c.tag % 3 == 0 {
+            k.pk_s[31] |= 0x80;
+        }
         let info = bytes(c.fill, c.info_len, 10, cfg.seed);
         let psk = bytes(c.fill, c.psk_len, 11, cfg.seed ^ 0xabcd);
         let psk_id = bytes(c.fill, c.psk_id_len, 12, cfg.seed ^ 0x1234);
@@ -270,6 +275,18 @@ impl Part for C01 {
                 if ct.len() < nt {
                     break;
                 }
+                // "delivered in order" on a real channel includes junk in between: a rejected copy (through the in-place form)
+                // before every other message of this kind must leave the round trip intact
+                if i % 4 == 2 {
+                    let mut junk = ct[..ct.len() - nt].to_vec();
+                    let mut jtag = ct[ct.len() - nt..].to_vec();
+                    jtag[0] ^= 0x01;
+                    let j = r.open_ip(&mut junk, &aad, &jtag);
+                    out.transitions += 1;
+                    if j != Obs::Err(hpke::HpkeError::OpenError) {
+                        out.fail(format!("#{}: a copy with a flipped tag bit delivered first: {} want Err(OpenError)", i, j.class()));
+                    }
+                }
                 let mut buf = ct[..ct.len() - nt].to_vec();
                 let blen = buf.len();
                 let o = r.open_ip(&mut buf, &aad, &ct[ct.len() - nt..]);
@@ -302,6 +319,15 @@ impl Part for C01 {
                 ct.extend_from_slice(&tag);
                 if let Some(w) = &want_ct {
                     out.check(&format!("#{}: in-place ciphertext || tag equals R1 ciphertext", i), &ct == w);
+                }
+                if i % 4 == 3 {
+                    let mut junk = ct.clone();
+                    junk[0] ^= 0x80;
+                    let j = r.open(&junk, &aad).map(|_| ());
+                    out.transitions += 1;
+                    if j != Obs::Err(hpke::HpkeError::OpenError) {
+                        out.fail(format!("#{}: a copy with a flipped first bit delivered first: {} want Err(OpenError)", i, j.class()));
+                    }
                 }
                 let o = r.open(&ct, &aad);
                 expect_bytes(&mut out, &format!("#{}: open(ct||tag) (pt {} aad {})", i, pl, al), &o, &pt);
